@@ -4,7 +4,7 @@ import ast
 from sa.algebra import Evaluator, Poly, Undecided
 from sa.calls import bind
 from sa.cfg import CFG, conjuncts
-from sa.common import expand_name, returns_of, resolved_calls, shared_kind, shared_returning
+from sa.common import expand_name, returns_of, resolved_calls, shared_kind, shared_returning, value_alternatives
 from sa.defuse import DefUse, loc_name
 from sa.model import AnalysisError, AnchorMissing, const_value, src, walk_function
 from sa.struct import call_name, find, kwarg, norm
@@ -124,19 +124,22 @@ def d2_restore(ctx):
     fw = [x for x in find(fi.node, ast.Call, nested=False) if call_name(x) == "rfft" and x.args and loc_name(x.args[0]) == fi.params[0]]
     ctx.check(bool(fw) and loc_name(kwarg(fw[0], "axis")) == "axis", fi, fw[0] if fw else fi.node, fw[0] if fw else "rfft", "forward transform runs along the shift axis",
               "forward transform is not along the shift axis", key="rfft-axis")
-    casts = [x for x in find(fi.node, ast.Call, nested=False) if call_name(x) == "astype" and x.args and src(x.args[0]).endswith(".dtype") and fi.params[0] in src(x.args[0])]
+    # every value the function can return that went through the inverse transform is `<...>.astype(<input>.dtype)`
     rets = returns_of(fi.node)
-    okc = bool(casts)
-    if okc:
-        cn = cfg.node_for(casts[0])
-        gs = []
-        for t, pol in cfg.guards(cn):
-            gs += conjuncts(t, pol)
-        okc = any(loc_name(t) == "do_fft" and pol for t, pol in gs)
-        st = cn.stmt
-        okc = okc and isinstance(st, ast.Assign) and all(loc_name(r.value) == loc_name(st.targets[0]) for r in rets)
-    ctx.check(okc, fi, casts[0] if casts else fi.node, casts[0] if casts else "astype(w.dtype)", "real results are cast back to the input dtype and returned",
-              "the result is not cast back to the input's dtype (float32 in, float64 out)", key="dtype")
+    n_real = 0
+    for r in rets:
+        if r.value is None:
+            continue
+        for gs, v in value_alternatives(du, r.value, r, keep=("ns", "axis")):
+            if not any(call_name(x) == "irfft" for x in find(v, ast.Call)):
+                continue
+            n_real += 1
+            okc = isinstance(v, ast.Call) and call_name(v) == "astype" and len(v.args) == 1 and isinstance(v.args[0], ast.Attribute) and v.args[0].attr == "dtype" \
+                and loc_name(v.args[0].value) == fi.params[0]
+            ctx.check(okc, fi, r, v, "real results are cast back to the input dtype and returned",
+                      "the result is not cast back to the input's dtype (float32 in, float64 out)", key="dtype")
+    if n_real == 0:
+        ctx.violation(fi, fi.node, "return", "no returned value goes through the inverse transform: the real path is not restored", key="dtype")
     nd = [d for d in du.defs if d.var == "ns" and d.kind == "assign"]
     ctx.check(bool(nd) and norm(nd[0].value) == norm(ast.parse("ns or w.shape[axis]", mode="eval").body), fi, nd[0].stmt if nd else fi.node, nd[0].stmt if nd else "ns",
               "ns defaults to the length along the shift axis", "ns is not `ns or w.shape[axis]`", key="ns")
